@@ -481,4 +481,6 @@ def run_genloadv1(ctx: C.Ctx):
             ctx.agree('genloadv1:locals', d, sorted(set(compiler_locals) - (comp_vars - set(mdl_locals))), mdl_locals)
         ok = not bad and not probs
         ctx.agree('genloadv1:verdict', d, {'wellScoped': ok}, {'wellScoped': r['wellScoped']})
+        # the premises of C15_genloadv1_well_scoped_inputs hold for what the library generated (theorem C15_genloadv1_premises_sound)
+        ctx.agree('genloadv1:premises', d, {'premises': ok}, {'premises': r['premises']})
     ctx.notes['genloadv1_cases'] = len(cases)
